@@ -3,6 +3,7 @@ TLA+: spec/Negotiation.tla ShareProblems / ShareSize on every wire ClientHello (
 to TLS 1.3 with the server forced to each offered group (share present -> direct, absent -> HelloRetryRequest): the client must
 complete (progress) whichever offered group the server selects; freshness of shares / randoms / session ids across connections
 is a set-cardinality formula evaluated by TLC (spec/C18Fresh.tla)."""
+import re
 import nego_common as nc, vlib
 
 def run(ctx):
@@ -14,6 +15,9 @@ def run(ctx):
                 if (s["id"], s["group"]) not in seen:
                     seen.add((s["id"], s["group"])); o2.append(s)
             out = o2
+        # the same offers from a custom spec that lists the key shares in the opposite order (every share, whatever
+        # its position, must stay backed by its private key)
+        out = out + [dict(x, ks_reverse=True) for x in out]
         return out
     scns, events, rej, unadv, mc = nc.run_nego(ctx, "c10", subset=subset, shards=8)
     for r in rej:
@@ -25,8 +29,9 @@ def run(ctx):
             ctx.finding("share:%s:%s" % (d, s["id"]), "key share of %s malformed: %s" % (s["id"], d), {"scenario": nc.scn_brief(s)})
         elif r["kind"] == "progress":
             err = (r["result"] or {}).get("cerr", "")
-            grp = "shared-group-%d" % s["group"] if "invalid server key share" in err else "other"
-            ctx.finding("progress:%s:%s:%s:v%d" % (d, grp, s["id"], s["ver"]),
+            grp = ("shared-group-%d" % s["group"] if "invalid server key share" in err
+               else "hrr-to-hybrid-group-%d" % s["group"] if "CurvePreferences includes unsupported curve" in err else "other")
+            ctx.finding("progress:%s:%s:%s:v%d%s" % (d, grp, re.sub(r"@\d+", "@seed", s["id"]), s["ver"], ":ksrev" if s.get("ks_reverse") else ""),
                         "server selected offered group %d and %s did not complete: %s (%s)" % (s["group"], s["id"], d, err),
                         {"scenario": nc.scn_brief(s), "result": r["result"]})
     # freshness: n connections per parrot; TLC counts distinct shares / randoms / session ids
